@@ -74,6 +74,10 @@ type e2eOutcome struct {
 	actions      int
 	recvOps      int
 	debris       int
+	crashImages  int
+	imageBad     []string
+	listingBad   []string
+	imageClasses map[string]int
 	inFlightLog  int // receiver crashes that fell between a log append and the move
 }
 
@@ -244,6 +248,8 @@ func e2eRun(c *Ctx, seed int64, spec *e2eSpec, dir string) *e2eOutcome {
 			disrupt()
 		}
 	}
+	installRecvHookNext := false
+	_ = installRecvHookNext
 	installRecvHook := func() {
 		w.recv.Dom.Before = func(ev *vfs.Event) error {
 			if !ev.Mut {
@@ -313,14 +319,19 @@ func e2eRun(c *Ctx, seed int64, spec *e2eSpec, dir string) *e2eOutcome {
 			continue
 		}
 		if w.recv.Dom.Dead() {
+			synctest.Wait()
+			out.crashImages++
+			crashImageCheck(w, out, "crash image")
 			time.Sleep(down)
 			w.regMu.Lock()
 			w.oldDelivered = append(w.oldDelivered, w.recv.Disp.Events()...)
 			w.oldLogged = append(w.oldLogged, w.recv.Log.Recs()...)
 			w.regMu.Unlock()
+			installRecvHookNext = true
 			w.restartReceiver()
 			w.recv.Disp.consume = spec.Consume
 			installRecvHook()
+			listingSoundCheck(w, out)
 			disrupt()
 			continue
 		}
@@ -780,6 +791,147 @@ func oracleTiling(o *e2eOutcome, v vfn) {
 		}
 		if pos >= 0 && pos != int64(len(ver.Data)) {
 			v("C11", "every-byte-once", "e2e-tiling", fmt.Sprintf("%s (size %d): transmitted parts end at %d", f.Name, len(ver.Data), pos))
+		}
+	}
+}
+
+// crashImageCheck (C06 I1): right after the simulated death of the receiver,
+// nothing under the final directory except complete, registered, announced
+// versions or .lck temporaries
+func crashImageCheck(w *world, out *e2eOutcome, when string) {
+	if out.imageClasses == nil {
+		out.imageClasses = map[string]int{}
+	}
+	srcOf := map[string]string{}
+	for _, f := range out.spec.Files {
+		srcOf[targetName(w, f.Name)] = f.Name
+	}
+	for rel, md5 := range w.finalFiles() {
+		base := strings.TrimSuffix(rel, ".lck")
+		name, ok := srcOf[base]
+		if !ok {
+			out.imageBad = append(out.imageBad, fmt.Sprintf("%s: %s under the final directory is not a target name", when, rel))
+			continue
+		}
+		if !w.isVersion(name, md5) {
+			out.imageBad = append(out.imageBad, fmt.Sprintf("%s: %s under the final directory (md5 %s) is not a complete version of %s", when, rel, md5, name))
+		}
+		if rel != base {
+			out.imageClasses["final-lck"]++
+		}
+	}
+	// classify what staging looks like (evidence: which on-disk states were hit)
+	for _, f := range out.spec.Files {
+		b := filepath.Join(w.recv.StageDir, f.Name)
+		cls := ""
+		for _, ext := range []string{".part", ".cmp", ".cmp.lck", ".full", ".wait"} {
+			if _, err := os.Stat(b + ext); err == nil {
+				cls += ext
+			}
+		}
+		if cls != "" {
+			out.imageClasses[cls]++
+		}
+	}
+}
+
+// listingSoundCheck (C06 I2): after Recover, every range the partials listing
+// claims holds exactly the source bytes of the announced version
+func listingSoundCheck(w *world, out *e2eOutcome) {
+	listing, err := w.recv.listing()
+	if err != nil {
+		return
+	}
+	for name, p := range listing {
+		var data []byte
+		w.regMu.Lock()
+		for _, v := range w.registry[name] {
+			if v.MD5 == p.Hash {
+				data = v.Data
+			}
+		}
+		w.regMu.Unlock()
+		if data == nil {
+			continue // a version the harness did not register cannot be announced
+		}
+		body, err := os.ReadFile(filepath.Join(w.recv.StageDir, name+".part"))
+		if err != nil {
+			continue // complete files are listed with their full range until delivered
+		}
+		for _, r := range p.Parts {
+			for i := r.Beg; i < r.End; i++ {
+				if i >= int64(len(body)) || i >= int64(len(data)) || body[i] != data[i] {
+					out.listingBad = append(out.listingBad, fmt.Sprintf("after recovery the listing claims %s%s but the staged byte %d differs from the source", name, fmtIv(r.Beg, r.End), i))
+					break
+				}
+			}
+		}
+	}
+}
+
+// oracleCrashImage (C06)
+func oracleCrashImage(o *e2eOutcome, v vfn) {
+	for _, s := range o.imageBad {
+		v("C06", "crash-image-final-clean", "unvalidated-in-final-at-crash", s)
+	}
+	for _, s := range o.listingBad {
+		v("C06", "listing-sound-after-recovery", "listing-unsound-after-recovery", s)
+	}
+}
+
+// oracleNoDuplicateData (C07): a restarted sender re-sends only what the
+// receiver does not report holding
+func oracleNoDuplicateData(o *e2eOutcome, v vfn) {
+	maxGen := 0
+	for _, r := range o.reqs {
+		if r.Gen > maxGen {
+			maxGen = r.Gen
+		}
+	}
+	for g := 2; g <= maxGen; g++ {
+		held := map[string][]iv{}      // name|hash -> ranges listed in the first successful partials answer
+		confirmed := map[string]bool{} // names polled passed/waiting during start-up recovery
+		failed := map[string]bool{}
+		gotListing := false
+		for _, r := range o.reqs {
+			if r.Gen != g {
+				continue
+			}
+			switch r.Class {
+			case "partials":
+				if r.Err == "" && !gotListing {
+					gotListing = true
+					for _, p := range r.Parts {
+						if p.End > p.Beg {
+							held[p.Name+"|"+p.Hash] = append(held[p.Name+"|"+p.Hash], iv{p.Beg, p.End})
+						}
+					}
+				}
+			case "poll":
+				for n, c := range r.Codes {
+					if c == sts.ConfirmPassed || c == sts.ConfirmWaiting {
+						confirmed[n] = true
+					}
+					if c == sts.ConfirmFailed || c == sts.ConfirmNone {
+						failed[n] = true
+						delete(confirmed, n)
+					}
+				}
+			case "data":
+				for _, p := range r.Parts {
+					if failed[p.Name] || fileChangedAfter(o, p.Name, p.Hash) {
+						continue
+					}
+					if confirmed[p.Name] && deliveredVersion(o, p.Name, p.Hash) {
+						v("C07", "confirmed-files-not-resent", "resent-confirmed-file", fmt.Sprintf("sender generation %d transmitted %s%s although the receiver had answered passed/waiting for it after the restart", g, p.Name, fmtIv(p.Beg, p.End)))
+					}
+					for _, h := range held[p.Name+"|"+p.Hash] {
+						if p.Beg < h.e && h.b < p.End {
+							v("C07", "only-missing-ranges-resent", "resent-held-range", fmt.Sprintf("sender generation %d transmitted %s%s which overlaps %s that the receiver listed as held", g, p.Name, fmtIv(p.Beg, p.End), fmtIv(h.b, h.e)))
+						}
+					}
+				}
+			}
 		}
 	}
 }
